@@ -35,12 +35,27 @@ fn guarded<T>(f: impl FnOnce() -> Result<T, regexml::Error>) -> Res<T> {
     }
 }
 
+thread_local! {
+    /// one line buffer per thread, never reallocated: every haystack of a history is handed to the engine at the same
+    /// address, the way a program that reads lines into one buffer does (a result must depend on the text alone)
+    static LINE: std::cell::RefCell<String> = std::cell::RefCell::new(String::with_capacity(1 << 16));
+}
+
+fn in_line_buffer<T>(s: &str, f: impl FnOnce(&str) -> T) -> T {
+    LINE.with(|b| {
+        let mut b = b.borrow_mut();
+        b.clear();
+        b.push_str(s);
+        f(&b)
+    })
+}
+
 fn run_call(re: &Regex, c: &Call) -> CallResult {
     match c {
-        Call::IsMatch(_, s) => CallResult::Bool(guarded(|| Ok(re.is_match(s)))),
-        Call::Replace(_, s, r) => CallResult::Str(guarded(|| re.replace_all(s, r))),
-        Call::Tokens(_, s) => CallResult::Tokens(tokens_of(re, s)),
-        Call::Analyze(_, s) => CallResult::Entries(analyze_of(re, s)),
+        Call::IsMatch(_, s) => in_line_buffer(s, |s| CallResult::Bool(guarded(|| Ok(re.is_match(s))))),
+        Call::Replace(_, s, r) => in_line_buffer(s, |s| CallResult::Str(guarded(|| re.replace_all(s, r)))),
+        Call::Tokens(_, s) => in_line_buffer(s, |s| CallResult::Tokens(tokens_of(re, s))),
+        Call::Analyze(_, s) => in_line_buffer(s, |s| CallResult::Entries(analyze_of(re, s))),
     }
 }
 
@@ -208,14 +223,14 @@ pub fn execute_history(h: &History) -> Outcome {
             }
             Op::OpenTokens { re, input } => {
                 let r = re % np;
-                if let Ok(Ok(it)) = catch_unwind(AssertUnwindSafe(|| pool[r].tokenize(input))) {
+                if let Ok(Ok(it)) = in_line_buffer(input, |input| catch_unwind(AssertUnwindSafe(|| pool[r].tokenize(input)))) {
                     live.push(Live::Tokens { re: r, input: input.clone(), it: Box::new(it), got: vec![], done: false });
                 }
                 ci += 1;
             }
             Op::OpenAnalyze { re, input } => {
                 let r = re % np;
-                if let Ok(Ok(it)) = catch_unwind(AssertUnwindSafe(|| pool[r].analyze(input))) {
+                if let Ok(Ok(it)) = in_line_buffer(input, |input| catch_unwind(AssertUnwindSafe(|| pool[r].analyze(input)))) {
                     live.push(Live::Analyze { re: r, input: input.clone(), it: Box::new(it), got: vec![], done: false });
                 }
                 ci += 1;
